@@ -133,16 +133,12 @@ Proof.
   assert (Hmain : unknown_node rw' (Some (x0 :: xs)) di = UOk n' /\ un_error n' = ENone).
   { unfold create_fresh in H. destruct (bigcap rw' (Some (x0 :: xs))) as [b|] eqn:Eb.
     2: { exfalso. unfold bigcap in Eb. destruct (or_none rw'); discriminate Eb. }
-    assert (Hun : match unknown_node rw' (Some (x0 :: xs)) di with
-                  | UOk m => match un_error m with ENone => if di && is_some (un_rw m) then None else Some (MUnknown (UOk m)) | _ => None end
-                  | u => Some (MUnknown u) end = Some (MUnknown (UOk n')) ->
-                  unknown_node rw' (Some (x0 :: xs)) di = UOk n' /\ un_error n' = ENone).
-    { destruct (unknown_node rw' (Some (x0 :: xs)) di) as [m| |]; try (intro K; injection K as K; discriminate K).
-      destruct (un_error m) eqn:Ee; try discriminate. destruct (di && is_some (un_rw m)); [discriminate|].
-      intro K. injection K as <-. split; [reflexivity|exact Ee]. }
     destruct (from_string di b) as [c| |]; try discriminate H.
-    destruct (builds_node c); [|exact (Hun H)].
-    destruct (di && match is_mutable c with Some true => true | _ => false end); discriminate H. }
+    destruct (builds_node c).
+    { destruct (di && match is_mutable c with Some true => true | _ => false end); discriminate H. }
+    destruct (unknown_node rw' (Some (x0 :: xs)) di) as [m| |] eqn:Em; try (injection H as H; discriminate H).
+    destruct (un_error m) eqn:Ee; try discriminate H. destruct (di && is_some (un_rw m)); [discriminate H|].
+    injection H as <-. split; [reflexivity|exact Ee]. }
   clear H. destruct Hmain as [Hn' He'].
   destruct (unknown_node_no_error _ _ _ _ Hn' He') as (rw'' & ro'' & P1 & ->).
   cbn [or_none] in P1.
@@ -160,4 +156,47 @@ Proof.
     destruct (un_rw n) as [w|]; [|cbn in Q1; discriminate Q1].
     exists w. repeat split. cbn [from_opt] in Q1.
     destruct (rstrip_spaces w) eqn:Ers; cbn [or_none] in Q1; [discriminate Q1|]. injection Q1 as <-. reflexivity.
+Qed.
+
+(* The other way a stored read cap can come back: as a KNOWN cap.  If the read cap r was
+   acceptable when it was attached (from_string di r gave a known cap or a plain
+   UnknownURI, i.e. no constraint error), then whatever known cap the stored form
+   strip_prefix_for_ro r di parses to in the directory's context is not writeable when r
+   was alleged read-only or immutable, and not mutable when r was alleged immutable. *)
+Theorem stored_readcap_never_upgrades_ok r di c0 c :
+  from_string di r = Ok c0 -> (known c0 = true \/ exists s, c0 = CUnknown s ENone) ->
+  from_string di (strip_prefix_for_ro r di) = Ok c ->
+  ((1 <= strength r)%nat -> is_readonly c <> Some false)
+  /\ (strength r = 2%nat -> is_mutable c <> Some true)
+  /\ (di = true -> is_readonly c <> Some false /\ is_mutable c <> Some true).
+Proof.
+  intros H0 Hc0 H.
+  assert (Hdi : di = true -> is_readonly c <> Some false /\ is_mutable c <> Some true).
+  { intros ->. destruct (alleged_prefix_never_upgrades_ok true (strip_prefix_for_ro r true) c) as (_ & _ & A). exact (A H). }
+  destruct di; [destruct (Hdi eq_refl); repeat split; auto|].
+  split; [|split; [|discriminate]].
+  - intro Hs. pose proof (strip_prefix_for_ro_spec r false) as S.
+    destruct (strength_cases r) as [[E I]|[(E & I & R)|(E & I & R)]]; rewrite E in S; [| |lia].
+    + rewrite S in H. destruct (starts_with_strip _ _ I) as (t & _ & ->).
+      destruct (alleged_prefix_never_upgrades_ok false t c) as (_ & A & _). exact (proj1 (A H)).
+    + (* r = "ro." ++ x, x stored *)
+      set (x := strip_prefix_for_ro r false) in *. intro W.
+      destruct (known c) eqn:K; [|destruct c; try discriminate K; discriminate W].
+      destruct (from_string_known false x c H K) as (cbm & cbw & s & dir & f & g & ext & Ea & -> & Hin & G & _ & Hs' & _).
+      unfold is_readonly in W. rewrite inner_mk_cap in W. cbn [option_map] in W. injection W as W. unfold is_readonly_f in W.
+      destruct (dispatch_guards dir (kind_of f) g Hin) as [Gw _]. rewrite (Gw W) in G. cbn [guard_ok] in G. subst cbw.
+      apply strip_alleged_spec in Ea. destruct Ea as [(_ & _ & E')|[(_ & _ & E' & _)|(Ex & _ & _ & _)]]; try discriminate E'.
+      subst s. rewrite to_string_prefix, <- app_assoc in Hs'.
+      (* the same string behind "ro." is refused *)
+      rewrite <- S in H0. destruct (strip_alleged_ro false x) as [cbm' Ea'].
+      unfold from_string in H0. rewrite Ea' in H0.
+      destruct (dispatch_find dir (kind_of f) (file_body f ++ ext)) as [g' Ef]. rewrite <- Hs' in Ef. rewrite Ef in H0.
+      apply find_some in Ef. destruct Ef as [Hin' _].
+      destruct (dispatch_guards dir (kind_of f) g' Hin') as [Gw' _]. rewrite (Gw' W) in H0. cbn [guard_ok] in H0.
+      injection H0 as <-. destruct Hc0 as [Kc|[s' Es]]; [discriminate Kc|].
+      injection Es as _ Ee. unfold constraint_error in Ee. destruct cbm'; discriminate Ee.
+  - intro Hs. pose proof (strip_prefix_for_ro_spec r false) as S. rewrite Hs in S. rewrite S in H.
+    destruct (strength_cases r) as [[E I]|[(E & _)|(E & _)]]; rewrite Hs in E; try discriminate E.
+    destruct (starts_with_strip _ _ I) as (t & _ & ->).
+    destruct (alleged_prefix_never_upgrades_ok false t c) as (_ & A & _). exact (proj2 (A H)).
 Qed.
